@@ -738,6 +738,7 @@ fn replay(expr_text: &str, input: &str) -> i32 {
 // ---------------------------------------------------------------------------------------------
 
 fn miri_subset() -> i32 {
+    FUEL_CFG.store(500, Ordering::Relaxed); // the interpreter is ~1000x slower; 500 is still > 3x the largest terminating run
     let inputs: Vec<Vec<char>> = ["", "ab", "aabc", "cba"].iter().map(|s| s.chars().collect()).collect();
     let mut acc = Acc::new();
     let d1 = expr::depth1_exact();
@@ -850,7 +851,7 @@ fn main() {
     }
     let (depth, default_random, default_budget) = match tier.as_str() {
         "quick" => (1, 300_000, u64::MAX),
-        "thorough" => (2, 2_000_000, 40_000_000),
+        "thorough" => (2, 2_000_000, 36_000_000),
         _ => {
             eprintln!("--tier quick|thorough");
             std::process::exit(2);
